@@ -42,6 +42,13 @@ def ensure_tools():
     return b
 
 
+DEFAULT_ADOPT = [
+    {"import": "golang.org/x/sync/singleflight", "dir": "golang.org/x/sync@v0.10.0/singleflight", "target": "zz_verif/singleflight"},
+    {"import": "golang.org/x/sync/errgroup", "dir": "golang.org/x/sync@v0.10.0/errgroup", "target": "zz_verif/errgroup"},
+    {"import": "golang.org/x/sync/semaphore", "dir": "golang.org/x/sync@v0.10.0/semaphore", "target": "zz_verif/semaphore"},
+]
+
+
 def build_overlay(chk, scratch):
     """Returns path of overlay.json. Nothing is written under REPO."""
     ov = {}
@@ -55,6 +62,11 @@ def build_overlay(chk, scratch):
             ov[os.path.join(REPO, "zz_verif", name, os.path.basename(f))] = f
     instr = chk.get("instrument", [])
     adopt = chk.get("adopt", [])
+    if instr:
+        # helper libraries that start goroutines / block on their own: instrumented whenever an
+        # instrumented package imports them (a native goroutine inside the scheduler's world hangs)
+        have = {a["import"] for a in adopt}
+        adopt = adopt + [a for a in DEFAULT_ADOPT if a["import"] not in have]
     if instr or adopt:
         tool = ensure_tools()
         frag = os.path.join(scratch, "frag.json")
